@@ -66,6 +66,15 @@ void vf_event_s(const char *sink, const char *s) { printf("EVENTS %s %s\n", sink
 void *vf_raw(size_t n) { void *p = calloc(1, n ? n : 1); if (!p) exit(5); return p; }
 void vf_fail(const char *why) { printf("HARNESS-FAIL %s\n", why); fflush(stdout); exit(6); }
 
+void vf_file(const char *name, const char *content)
+{
+	FILE *fp = fopen(name, "w");
+	if (!fp) { printf("HARNESS-FAIL cannot create %s\n", name); exit(6); }
+	fputs(content, fp); fclose(fp);
+}
+long vf_stream_content_cxx(void *is, char *buf, long cap);   /* rt/vf_native_cxx.cpp */
+long vf_stream_content(void *is, char *buf, long cap) { return vf_stream_content_cxx(is, buf, cap); }
+
 #ifdef VF_ENTRY
 void VF_ENTRY(void);
 int main(void) { VF_ENTRY(); printf("DONE\n"); return 0; }
